@@ -223,6 +223,53 @@ fn packetize(values: &[ValSpec], cap: usize, encodings: &[&[u8]]) -> Result<(), 
     Ok(())
 }
 
+/// A sequence through ONE `Encoder` over the io adapter on a device with room for everything, whose lane contains short
+/// writes, EINTR and one non-retryable error: every value must either add exactly its encoding to the device or -- when the
+/// device failed during it -- fail with a write error and add a prefix of its encoding; the values after it are unaffected
+/// (nothing of an earlier item may be sent later, nothing of a later item may be skipped).
+fn io_continued(values: &[ValSpec], encodings: &[&[u8]], io_seed: u64, obs: &Rc<RefCell<Obs>>) -> Result<(), Violation> {
+    let (mut lane, _, _) = io_lane(io_seed ^ 0x10C0, 0);
+    let mut r = Rng::new(io_seed ^ 0x7A11);
+    let at = r.below(lane.len() as u64 + 1) as usize;
+    lane.insert(at, Step::Err(*r.pick(&[ErrKind::WouldBlock, ErrKind::TimedOut, ErrKind::Other, ErrKind::ConnectionReset])));
+    let total: usize = encodings.iter().map(|e| e.len()).sum();
+    let budget = lane.len() as u64 + 4 * encodings.len() as u64 + 2 * total as u64 + 64;
+    let core = SinkCore::new(lane, None, budget, obs.clone());
+    core.borrow_mut().allow_fatal = true;
+    let mut enc = minicbor::Encoder::new(Writer::new(SimSink(core.clone())));
+    for (j, v) in values.iter().enumerate() {
+        let before = core.borrow().data.len();
+        let device_errors = |c: &SinkCore| -> u64 { ERR_KINDS.iter().filter(|k| **k != ErrKind::Interrupted).map(|k| c.served_err[k.idx()]).sum() };
+        let errors_before = device_errors(&core.borrow());
+        let res = with_value(v, EncodeThrough { enc: &mut enc });
+        let c = core.borrow();
+        if c.cap_hit {
+            fail!("progress", "io_writer sequence: sink call cap exceeded at value #{j}");
+        }
+        let gained = &c.data[before..];
+        let failed_now = device_errors(&c) > errors_before;
+        match res {
+            Ok(()) => {
+                if gained != encodings[j] {
+                    fail!("bytes_equal", "io_writer sequence: value #{j} reported success but the device gained {} bytes that are not its {}-byte encoding", gained.len(), encodings[j].len());
+                }
+            }
+            Err(e) => {
+                if !failed_now {
+                    fail!("fit_iff", "io_writer sequence: value #{j} failed ({}) although the device did not fail during it", e.msg);
+                }
+                if !e.is_write {
+                    fail!("err_is_write", "io_writer sequence: the device error during value #{j} is not reported as a write error ({})", e.msg);
+                }
+                if gained.len() > encodings[j].len() || gained != &encodings[j][..gained.len()] {
+                    fail!("prefix_left", "io_writer sequence: after the device error during value #{j} the {} bytes it added are not a prefix of its encoding", gained.len());
+                }
+            }
+        }
+    }
+    Ok(())
+}
+
 /// Records the encoder's internal `write_all` sequence (lengths), to know the write boundaries.
 struct Rec {
     bytes: Vec<u8>,
@@ -497,6 +544,9 @@ fn run_encode(values: &[ValSpec], only_sink: Option<Sink>, only_cap: Option<u32>
         }
     };
 
+    if keep_going && only_sink.map(|k| k == Sink::IoWriter).unwrap_or(true) {
+        io_continued(values, &encodings, io_seed, obs)?;
+    }
     for &c in &caps {
         {
             let mut o = obs.borrow_mut();
